@@ -3,6 +3,12 @@
 //! differential: dumps taken on the same Nexus are compared with each other,
 //! so no KIP semantics are re-implemented here.
 //!
+//! Through time: elements of every kind (and, in short histories, counts and
+//! beliefs) are also read `AS OF SEQ k` at numbers no journal row carries —
+//! the one the next statement takes, or every number a short history can
+//! reach (`Window`, `spec_wide`): what a refused statement leaves in the
+//! version log is stamped with the number it burned.
+//!
 //! Only fields that *are* the Space's sequence counter are masked (the
 //! property exempts exactly that): `seq` in DESCRIBE SPACE / LIST SPACES /
 //! PRIMER, `space_seq` in EXECUTION CONTEXT, the coordinate of a bare
@@ -39,12 +45,57 @@ pub const FOR_TIME: &str = r#"FOR TIME "2030-01-01T00:00:00Z""#;
 pub struct Spec {
     /// `AS OF SEQ k` is read for every k in here: 0 and every journalled sequence.
     pub seqs: Vec<u64>,
+    /// The numbers within `WINDOW` of the Space's sequence counter that no
+    /// journal row carries: burned by a refused statement, or not yet taken
+    /// (the next statement's own number among them). Elements, counts and
+    /// beliefs are read `AS OF SEQ k` there too: a version-log row left by a
+    /// refused statement is stamped with the number that statement burned and
+    /// shows at no journalled coordinate.
+    pub near: Vec<u64>,
+    pub window: Window,
+    /// The ranges were chosen once for a whole short history (`spec_wide`):
+    /// every dump of that history asks exactly the same questions and
+    /// `retarget` leaves the Spec alone.
+    pub fixed: bool,
     /// `HISTORY ELEMENT` is probed for ids 1..=max of each kind (C, P, A, E, X).
     pub max_id: [u64; 5],
     /// `DESCRIBE TRANSACTION "<space>#k"` is probed for k in 1..=max_tx.
     pub max_tx: u64,
     /// `BELIEF SLOT (:subject, "status")` is projected for these Concept ids.
     pub slot_subjects: Vec<String>,
+}
+
+/// How far below and above the sequence counter `Spec::near` reaches.
+#[derive(Clone, Copy, Debug)]
+pub struct Window {
+    /// How many numbers at or below the counter (0: none of them).
+    pub below: u64,
+    /// How many numbers above the counter.
+    pub above: u64,
+    /// Counts and beliefs too (elements of every kind always).
+    pub projections: bool,
+}
+
+impl Window {
+    /// The number the next statement takes (a version-log row is stamped with
+    /// the sequence of the statement that wrote it): enough for every single
+    /// step of a long history, where each refused statement is judged right
+    /// after it ran.
+    pub const STEP: Window = Window { below: 0, above: 1, projections: false };
+    /// Every number from 1 to two past the counter (short histories).
+    pub const ALL: Window = Window { below: u64::MAX, above: 2, projections: true };
+}
+
+fn near_numbers(seqs: &[u64], counter: u64, window: Window) -> Vec<u64> {
+    ((counter + 1).saturating_sub(window.below)..=counter + window.above)
+        .filter(|k| *k > 0 && !seqs.contains(k))
+        .collect()
+}
+
+/// The k of a label that reads `AS OF SEQ k`.
+pub fn as_of_seq(label: &str) -> Option<u64> {
+    let rest = label.split(" AS OF SEQ ").nth(1)?;
+    rest.split_whitespace().next()?.parse().ok()
 }
 
 fn as_of_clause(as_of: Option<u64>) -> String {
@@ -164,10 +215,10 @@ pub fn by_id(dump: &Dump) -> BTreeMap<String, Json> {
 }
 
 /// The probing ranges depend only on what is committed (journal sequences,
-/// element ids), never on burned sequence numbers: a statement that changes
-/// nothing leaves the Spec unchanged, so its after-dump can serve as the next
-/// before-dump.
-pub fn spec_from(nx: &Nx, now: &Dump) -> Spec {
+/// element ids) — except `near`, which follows the sequence counter: after a
+/// statement that changes nothing the after-dump serves as the next
+/// before-dump once `retarget` has slid that window.
+pub fn spec_from(nx: &Nx, now: &Dump, window: Window) -> Spec {
     let journal = nx.q("HISTORY SPACE");
     let mut seqs: Vec<u64> = vec![0];
     if let Some(rows) = journal["ok"].as_array() {
@@ -188,12 +239,39 @@ pub fn spec_from(nx: &Nx, now: &Dump) -> Spec {
         .map(|(id, _)| id.clone())
         .collect();
     slot_subjects.push("C-9001".to_string());
+    let near = near_numbers(&seqs, space_seq(nx), window);
     Spec {
         seqs,
+        near,
+        window,
+        fixed: false,
         max_id,
         max_tx,
         slot_subjects,
     }
+}
+
+/// One Spec for a whole history of at most `statements` further statements,
+/// so that the after-dump of each is the before-dump of the next whether or
+/// not it changed the state: `AS OF SEQ k` elements, counts and beliefs at
+/// EVERY number the history can reach (journalled, burned or not yet taken),
+/// and the id / transaction / slot probes reaching past every element those
+/// statements can create. (`SNAPSHOT AS OF SEQ k` and the schema environment
+/// at k only for the sequences journalled at the start: at other numbers they
+/// answer by the sequence counter itself.)
+pub fn spec_wide(nx: &Nx, now: &Dump, statements: u64) -> Spec {
+    let window = Window { below: u64::MAX, above: statements, projections: true };
+    let mut spec = spec_from(nx, now, window);
+    spec.fixed = true;
+    for max in spec.max_id.iter_mut() {
+        *max += 3 * statements;
+    }
+    spec.max_tx += statements;
+    let first_new = by_id(now).keys().filter(|id| id.starts_with("C-")).map(|id| id_number(id)).max().unwrap_or(0) + 1;
+    let ghost = spec.slot_subjects.pop();
+    spec.slot_subjects.extend((first_new..first_new + 2 * statements).map(|n| format!("C-{n}")));
+    spec.slot_subjects.extend(ghost);
+    spec
 }
 
 /// The full observable state. `now` may carry the element sections already
@@ -252,7 +330,53 @@ pub fn dump(nx: &Nx, spec: &Spec, now: Option<Dump>) -> Dump {
         run_into(nx, &mut out, format!("SNAPSHOT AS OF SEQ {k}"));
         run_into(nx, &mut out, format!("DESCRIBE SCHEMA ENVIRONMENT AS OF SEQ {k}"));
     }
+    for &k in &spec.near {
+        near_into(nx, &mut out, k, spec.window);
+    }
     out
+}
+
+/// The reads at a number no journal row carries. (`SNAPSHOT AS OF SEQ k`
+/// answers by the sequence counter itself and is not asked here.)
+fn near_into(nx: &Nx, out: &mut Dump, k: u64, window: Window) {
+    for text in element_queries(Some(k)) {
+        run_into(nx, out, text);
+    }
+    if window.projections {
+        for text in count_queries(Some(k)) {
+            run_into(nx, out, text);
+        }
+        for text in belief_queries(Some(k)) {
+            run_into(nx, out, text);
+        }
+    }
+}
+
+/// After a statement that left the observable state unchanged but moved the
+/// sequence counter: slides `Spec::near` to the new counter, so that `state`
+/// (the after-dump) can serve as the next statement's before-dump. Labels of
+/// numbers that left the window are dropped, the new ones are read. Returns
+/// the number of queries issued.
+pub fn retarget(nx: &Nx, spec: &mut Spec, state: &mut Dump) -> u64 {
+    if spec.fixed {
+        return 0;
+    }
+    let near = near_numbers(&spec.seqs, space_seq(nx), spec.window);
+    if near == spec.near {
+        return 1;
+    }
+    let dropped: Vec<u64> = spec.near.iter().copied().filter(|k| !near.contains(k)).collect();
+    if !dropped.is_empty() {
+        state.retain(|label, _| !as_of_seq(label).is_some_and(|k| dropped.contains(&k)));
+    }
+    let size = state.len();
+    for &k in &near {
+        if !spec.near.contains(&k) {
+            near_into(nx, state, k, spec.window);
+        }
+    }
+    spec.near = near;
+    (state.len() - size) as u64 + 1
 }
 
 fn drop_key(value: &mut Json, key: &str) {
